@@ -4,7 +4,7 @@
     hunk iterator (Layer A), and the histogram LCS (Layer B, [M_hist]). *)
 From Coq Require Import Lia Arith Sorted.
 From Verif Require Import Base.Prelude Model.Diff Model.C03
-     Proofs.DiffBase Proofs.DiffA Proofs.DiffA2 Proofs.DiffA3 Proofs.DiffA4 Proofs.DiffThm Proofs.C03 Proofs.DiffB4.
+     Proofs.DiffBase Proofs.DiffA Proofs.DiffA2 Proofs.DiffA3 Proofs.DiffA4 Proofs.DiffThm Proofs.C03 Proofs.DiffB4 Proofs.DiffB7.
 
 (** Layer A: for ANY matching function [M] whose results are in range and strictly
     increasing in both coordinates ([valid_matching], decided by [valid_matchingb]), every
@@ -174,6 +174,18 @@ Proof.
   - intros a b. now apply M_order_independent.
   - intros s inputs. now apply hunks_order_independent.
 Qed.
+
+(** Termination: the fuel the model gives to the recursion of [collect_unchanged_words]
+    ([S (length left)]) suffices - every larger fuel yields the same matching, because each
+    recursive call works on a strictly shorter left token list. *)
+Theorem C03_fuel_suffices :
+  forall (T : Type) (eqb : T -> T -> bool), (forall x y, eqb x y = true <-> x = y) ->
+  forall (order : list (T * list nat) -> list (T * list nat)),
+    (forall h, Permutation.Permutation (order h) h) ->
+  forall (max_occ : nat) (left right : list T) (fuel : nat),
+    length left < fuel ->
+    collect_unchanged_words eqb order max_occ left right = cuw eqb order max_occ fuel left right 0 0.
+Proof. exact @collect_unchanged_words_fuel. Qed.
 
 (** The constants used by the model are the ones scraped from core/src/diff.rs. *)
 Theorem C03_tables_agree : tables_okb = true.
